@@ -9,11 +9,11 @@ import (
 	"math/big"
 	"sort"
 	"strings"
+	"sync"
 	"time"
 
 	sdkmath "cosmossdk.io/math"
 	sdk "github.com/cosmos/cosmos-sdk/types"
-	authtypes "github.com/cosmos/cosmos-sdk/x/auth/types"
 
 	"github.com/kava-labs/kava/app"
 	auctiontypes "github.com/kava-labs/kava/x/auction/types"
@@ -39,7 +39,7 @@ var Types = []TypeCfg{
 	{"bnb-a", "bnb", 2, 8, "bnb:usd", "bnb:usd:30", 0, 1, 5000000000},
 	{"bnb-b", "bnb", 2, 8, "bnb:usd", "bnb:usd:30", 0, 1, 5000000000},
 	{"eth-a", "eth", 3, 18, "eth:usd", "eth:usd:30", 2, 3, 0}, // auction size set below (10^19)
-	{"xrp-a", "xrp", 4, 6, "xrp:usd", "xrp:usd:30", 4, 5, 2000000000},
+	{"xrp-a", "xrp", 4, 6, "xrp:usd", "xrp:usd:30", 4, 5, 100000000},
 }
 
 var Denoms = []string{"usdx", "debt", "bnb", "eth", "xrp"}
@@ -81,7 +81,7 @@ func DefaultParams() cdptypes.Params {
 	}
 	huge := sdkmath.NewIntFromBigInt(Pow10(30))
 	return cdptypes.Params{
-		GlobalDebtLimit: sdk.NewCoin("usdx", sdkmath.NewIntFromBigInt(Pow10(18))), CollateralParams: cps,
+		GlobalDebtLimit: sdk.NewCoin("usdx", sdkmath.NewIntFromBigInt(Pow10(19))), CollateralParams: cps,
 		DebtParam:               cdptypes.DebtParam{Denom: "usdx", ReferenceAsset: "usd", ConversionFactor: sdkmath.NewInt(6), DebtFloor: sdkmath.NewInt(10000000)},
 		SurplusAuctionThreshold: huge, SurplusAuctionLot: sdkmath.NewInt(10000000000),
 		DebtAuctionThreshold: huge, DebtAuctionLot: sdkmath.NewInt(10000000000),
@@ -91,18 +91,20 @@ func DefaultParams() cdptypes.Params {
 
 // NewWorld builds the repository's test app with 6 funded users, one oracle, 6 markets and 4 collateral types.
 func NewWorld() *World {
+	mkMu.Lock()
+	defer mkMu.Unlock()
+	app.SetSDKConfig()
 	_, addrs := app.GeneratePrivKeyAddressPairs(NUsers + 1)
 	users := append([]sdk.AccAddress{}, addrs[:NUsers]...)
 	sort.Slice(users, func(i, j int) bool { return bytes.Compare(users[i], users[j]) < 0 })
 	oracle := addrs[NUsers]
-	tApp := app.NewTestApp()
-	cdc := tApp.AppCodec()
+	cdc := app.MakeEncodingConfig().Marshaler
 
 	fund := sdk.NewCoins(
 		sdk.NewCoin("usdx", sdkmath.NewIntFromBigInt(Pow10(15))),
-		sdk.NewCoin("bnb", sdkmath.NewIntFromBigInt(Pow10(16))),
-		sdk.NewCoin("eth", sdkmath.NewIntFromBigInt(Pow10(26))),
-		sdk.NewCoin("xrp", sdkmath.NewIntFromBigInt(Pow10(14))),
+		sdk.NewCoin("bnb", sdkmath.NewIntFromBigInt(Pow10(12))),
+		sdk.NewCoin("eth", sdkmath.NewIntFromBigInt(new(big.Int).Mul(big.NewInt(2), Pow10(21)))),
+		sdk.NewCoin("xrp", sdkmath.NewIntFromBigInt(new(big.Int).Mul(big.NewInt(2), Pow10(10)))),
 	)
 	authGen := app.NewFundedGenStateWithSameCoins(cdc, fund, users)
 
@@ -126,7 +128,7 @@ func NewWorld() *World {
 		Params: params, StartingCdpID: cdptypes.DefaultCdpStartingID, DebtDenom: cdptypes.DefaultDebtDenom,
 		GovDenom: cdptypes.DefaultGovDenom, CDPs: cdptypes.CDPs{}, PreviousAccumulationTimes: gats, TotalPrincipals: gtps,
 	}
-	tApp2, ctx := newApp(tApp,
+	tApp2, ctx := kapp.NewApp(
 		authGen,
 		app.GenesisState{pricefeedtypes.ModuleName: cdc.MustMarshalJSON(&pfGen)},
 		app.GenesisState{cdptypes.ModuleName: cdc.MustMarshalJSON(&cdpGen)},
@@ -144,11 +146,7 @@ func NewWorld() *World {
 	return w
 }
 
-func newApp(tApp app.TestApp, genesis ...app.GenesisState) (app.TestApp, sdk.Context) {
-	// same as kapp.NewApp but reusing the codec of an already constructed app
-	_ = authtypes.ModuleName
-	return kapp.NewAppFrom(tApp, genesis...)
-}
+var mkMu sync.Mutex
 
 func (w *World) Keeper() cdpkeeper.Keeper { return w.App.GetCDPKeeper() }
 
